@@ -535,6 +535,10 @@ def forced_v4(content):
         return None
 
 
+KNOWN_UNPARSABLE = set(v[0][1] for v in MID_KINDS.values() if v[0] is not None and v[0][0] == "f") | \
+    set(v[1] for v in MID_KINDS.values() if v[1] is not None) | set(a for a in ANSWERS.values() if isinstance(a, str))
+
+
 def id_class(content, last):
     """Everything generate_machine_id can observe about the stored identifier, with the VALUE replaced by
     its relation to the identifier returned last."""
@@ -544,7 +548,11 @@ def id_class(content, last):
     try:
         raw = _uuid.UUID(s)
     except ValueError:
-        return "blank" if s == "" else ("unparsable:" + content if len(content) < 48 else "unparsable")
+        if s == "":
+            return "blank"
+        # the enumerated unparsable contents are kept apart; anything else (e.g. a marker time stamp a changed tree
+        # wrote through a symlink) is one class - it depends on the clock and the code can only reject it anyway
+        return "unparsable:" + content if content in KNOWN_UNPARSABLE else "unparsable"
     forced = str(_uuid.UUID(s, version=4))          # what the code under test returns for it
     if s == str(raw):
         form = "hyphenated"
@@ -574,8 +582,8 @@ def canon(dirs, ents, last):
     the other with identical observations.  Fresh identifiers come from a counter that is restored together with
     the state, so they differ from every identifier already present in either state.  The subscription identity
     is the one constant the environment can hand out again at any time (when no usable identifier file exists a
-    read returns it), therefore `last == UB` is part of the key.  Unusual spellings and short unparsable contents
-    are kept literally (no merging).
+    read returns it), therefore `last == UB` is part of the key.  Unusual spellings and the enumerated unparsable
+    contents are kept literally (no merging).
     (b) marker and target files are never opened for reading by the code; the oracle compares their bytes only
     before/after a single event.  (c) the code never looks at time stamps; the harness ages all files before each
     event.  (d) see (a).
@@ -898,6 +906,11 @@ def unit_weight(u):
 
 # ---- the search ------------------------------------------------------------------------------------
 
+def _note(res, text):
+    if len(res.notes) < 5:
+        res.notes.append(text[:400])
+
+
 def run_unit(unit, tier):
     if unit["part"] == "one-process":
         return run_one_process(unit)
@@ -940,6 +953,8 @@ def run_unit(unit, tier):
         succ = collections.defaultdict(set)       # the explored graph, for the depth-from-pristine statistic
         res.stat("events_that_raised", 0)
         res.stat("reads_that_exit_on_unparsable_file", 0)
+        res.stat("violations_not_reproduced_from_scratch", 0)
+        res.stat("histories_not_re_reaching_their_state", 0)
         while frontier:
             if len(nodes) > MAX_STATES:
                 res.exhaustive = False
@@ -977,8 +992,11 @@ def run_unit(unit, tier):
                     got = set(c for (c, _, _, _) in confirmed)
                     for (c, e, o, f) in viols:
                         if c not in got:
-                            raise RuntimeError("C17 harness: %s seen in the search does not reproduce from scratch: %r"
-                                               % (c, case))
+                            # never reported: only what re-executes from scratch counts (an unsound merge or state the
+                            # harness does not own can cost a detection, not produce an alarm)
+                            res.stat("violations_not_reproduced_from_scratch")
+                            res.exhaustive = False
+                            _note(res, "%s seen in the search did not reproduce from scratch: %r" % (c, case))
                     for (c, e, o, f) in confirmed:
                         res.violation(c, case, e, o, f)
                 k = canon(dirs, after, new_last)
@@ -1019,7 +1037,10 @@ def run_unit(unit, tier):
             _, k = run_linear(init, tr)
             res.traces += 1
             if seen.get(k) != i:
-                raise RuntimeError("C17 harness: history %r / %r does not re-reach its state" % (init, tr))
+                res.stat("histories_not_re_reaching_their_state")
+                res.exhaustive = False
+                _note(res, "history %r / %r does not re-reach its state (behaviour depends on something the harness "
+                           "does not own)" % (init, tr))
         res.samples.append({"unit": unit, "states": len(nodes), "transitions": res.transitions,
                             "max_depth": max_depth, "closed": closed})
     finally:
@@ -1062,7 +1083,9 @@ def run_one_process(unit):
                         got = set(c for (c, _, _, _) in confirmed)
                         for (c, e, o, f) in viols:
                             if c not in got:
-                                raise RuntimeError("C17 harness: %s in a one-process sequence does not reproduce: %r" % (c, case))
+                                res.stat("violations_not_reproduced_from_scratch")
+                                res.exhaustive = False
+                                _note(res, "%s in a one-process sequence did not reproduce: %r" % (c, case))
                         for (c, e, o, f) in confirmed:
                             res.violation(c, case, e, o, f)
         res.maxi("one_process_max_len", unit["max_len"])
